@@ -123,7 +123,7 @@ func prefixMatchC11(r, base string) bool {
 
 // refC11: index of the rule the documentation selects, or -1.
 // (Written without data-dependent control flow: symbolic conditions only guard assignments to locals.)
-func refC11(present []bool, whole, rest string, nlabels int, path string) int {
+func refC11(rules []ruleC11, present []bool, whole, rest string, nlabels int, path string) int {
 	result, decided := -1, false
 	// 1. host class: exact, else wildcard, else any — the first class with at least one matching rule
 	// decides; there is no fallback to a later class when the path does not match
@@ -131,7 +131,7 @@ func refC11(present []bool, whole, rest string, nlabels int, path string) int {
 		inClass := false
 		// 2. path within the class: exact, else longest prefix, else any
 		best, bestKind, bestLen := -1, 3, -1
-		for i, r := range rulesC11 {
+		for i, r := range rules {
 			if !present[i] || hostClassC11(r.host) != class {
 				continue
 			}
@@ -159,9 +159,14 @@ func refC11(present []bool, whole, rest string, nlabels int, path string) int {
 }
 
 func VerifC11_precedence() {
-	nr := len(rulesC11)
+	checkUniverseC11(rulesC11, vrt.Param("SUB", 2), vrt.Param("LABELS", 3), vrt.Param("ELEMS", 3), vrt.Param("ELEN", 2))
+}
+
+// checkUniverseC11: sub-tables with at most maxPresent rules of the universe, plus the full table, against a
+// symbolic request host of 1..labels one-byte labels and a symbolic request path of <= elems elements.
+func checkUniverseC11(rules []ruleC11, maxPresent, labels, elems, elen int) {
+	nr := len(rules)
 	present := make([]bool, nr)
-	maxPresent := vrt.Param("SUB", 2) // sub-tables with at most SUB rules, plus the full table
 	full := vrt.Choose("full-table", 2) == 1
 	cnt := 0
 	for i := 0; i < nr; i++ {
@@ -174,7 +179,7 @@ func VerifC11_precedence() {
 	}
 	tree := NewBasicRouteRuleTree()
 	clusters := make([]string, nr)
-	for i, r := range rulesC11 {
+	for i, r := range rules {
 		if !present[i] {
 			continue
 		}
@@ -192,7 +197,7 @@ func VerifC11_precedence() {
 	}
 
 	// request host: 1..LABELS labels of 1 symbolic ASCII byte (not '.', not ':')
-	k := vrt.Range("labels", 1, vrt.Param("LABELS", 3))
+	k := vrt.Range("labels", 1, labels)
 	whole, rest := "", ""
 	for i := 0; i < k; i++ {
 		l := vrt.Str("label", 1)
@@ -210,14 +215,14 @@ func VerifC11_precedence() {
 	// request path: "" or "/" or 1..ELEMS elements of one symbolic byte (the last one 1..ELEN bytes; not '/'),
 	// optional trailing slash
 	path := ""
-	e := vrt.Range("elems", -1, vrt.Param("ELEMS", 3))
+	e := vrt.Range("elems", -1, elems)
 	if e == 0 {
 		path = "/"
 	}
 	for i := 0; i < e; i++ {
 		n := 1
 		if i == e-1 {
-			n = vrt.Range("last-elem-len", 1, vrt.Param("ELEN", 2)) // "/p/qx" must not match "/p/q*"
+			n = vrt.Range("last-elem-len", 1, elen) // "/p/qx" must not match "/p/q*"
 		}
 		c := vrt.Str("elem", n)
 		for j := 0; j < n; j++ {
@@ -230,9 +235,62 @@ func VerifC11_precedence() {
 	}
 
 	got, found := tree.Get(whole, path)
-	want := refC11(present, whole, rest, k, path)
+	want := refC11(rules, present, whole, rest, k, path)
 	vrt.Assert(found == (want >= 0), "C11/found-iff-documented")
 	if found && want >= 0 {
 		vrt.Assert(got == clusters[want], "C11/cluster-of-documented-rule")
 	}
+}
+
+// universe 2: an exact rule for a slash-terminated path next to a prefix rule rooted at the same path, in
+// every host class ("/" with "/*", "/s/" with "/s/*" or "/s*"); the documented order (exact path before
+// prefix) must hold for a request of exactly that path, and "/s" (no slash) must still take the prefix rule.
+var rulesSlashC11 = []ruleC11{
+	{"a.b", "/"},    // 0 exact host, exact root
+	{"a.b", "/*"},   // 1 exact host, prefix rooted at the root
+	{"a.b", "/s/"},  // 2 exact host, exact slash-terminated path
+	{"a.b", "/s/*"}, // 3 exact host, prefix rooted at the same path
+	{"*.b", "/s/"},  // 4 wildcard host, exact slash-terminated path
+	{"*.b", "/s*"},  // 5 wildcard host, prefix rooted at the same path (written without the slash)
+	{"*", "/"},      // 6 any host, exact root
+	{"*", "/*"},     // 7 any host, prefix rooted at the root
+}
+
+func VerifC11_exactAndPrefixSamePath() {
+	checkUniverseC11(rulesSlashC11, vrt.Param("SUB", 2), 2, vrt.Param("ELEMS", 2), 1)
+}
+
+func isLetterC11(b byte) bool { return b >= 'a' && b <= 'z' || b >= 'A' && b <= 'Z' }
+
+// VerifC11_hostCaseFold: "host comparison is case-insensitive" for every letter. The rule host is
+// "<L1><L2>.<L3>" (exact) or "*.<L1><L2>.<L3>" (wildcard) with symbolic ASCII letters/digits/hyphen in any
+// case; the request host is any spelling that differs from it only in letter case. The rule must be the one
+// that answers (an any-host rule with another cluster is always present).
+func VerifC11_hostCaseFold() {
+	l := vrt.Str("rule-label", 3)
+	q := vrt.Str("req-label", 3)
+	for i := 0; i < 3; i++ {
+		vrt.Assume(isLetterC11(l[i]) || l[i] >= '0' && l[i] <= '9' || l[i] == '-')
+		vrt.Assume(lowerC11(q[i]) == lowerC11(l[i]) && (isLetterC11(q[i]) || q[i] == l[i]))
+	}
+	ruleHost := l[:2] + "." + l[2:]
+	reqHost := q[:2] + "." + q[2:]
+	wildcard := vrt.Choose("wildcard-rule", 2) == 1
+	if wildcard {
+		ruleHost = "*." + ruleHost
+		x := vrt.Str("first-label", 1)
+		vrt.Assume(x[0] != '.' && x[0] != ':' && x[0] < 0x80)
+		reqHost = x + "." + reqHost
+	}
+	cr, ca := "R", "A"
+	tree := NewBasicRouteRuleTree()
+	if err := tree.Insert(&BasicRouteRuleFile{Hostname: []string{ruleHost}, Path: []string{"*"}, ClusterName: &cr}); err != nil {
+		panic("C11 harness: rule rejected: " + err.Error())
+	}
+	if err := tree.Insert(&BasicRouteRuleFile{Hostname: []string{"*"}, Path: []string{"*"}, ClusterName: &ca}); err != nil {
+		panic("C11 harness: rule rejected: " + err.Error())
+	}
+	got, found := tree.Get(reqHost, "/p")
+	vrt.Assert(found, "C11/case-variant-host-found")
+	vrt.Assert(got == cr, "C11/case-variant-host-takes-its-rule")
 }
